@@ -33,6 +33,15 @@ def build(kind):
     if kind in _built:
         return _built[kind]
     os.makedirs(BUILD, exist_ok=True)
+    # libraries left behind by forked children that were killed (their atexit hook never ran): remove those whose process is gone
+    import re
+    for fn in os.listdir(BUILD):
+        m = re.match(r"libreplay_\w+_(\d+)\.so$", fn)
+        if m and not os.path.exists("/proc/%s" % m.group(1)):
+            try:
+                os.unlink(os.path.join(BUILD, fn))
+            except OSError:
+                pass
     src = os.path.join(cfront.repo(), "src")
     out = os.path.join(BUILD, "libreplay_%s_%d.so" % (kind, os.getpid()))
     flags = ["-O2"] if kind == "plain" else ["-O1", "-g", "-fsanitize=address,undefined,float-cast-overflow", "-fno-sanitize-recover=all"]
